@@ -331,3 +331,70 @@ def rule_ack_after_handle(ctx, rep, rid: str) -> None:
                             n += 1
                             rep.fail(rid, f"{f.qualname} ack placement", "ack outside the try that runs the handler", f.file, node.lineno, disc="no-try")
     rep.floor("ack call sites in the processor", n, 2)
+
+
+# ------------------------------------------------------------------ DDL
+@dataclass
+class Table:
+    name: str
+    module: str
+    file: str
+    line: int
+    cols: dict            # column -> declaration text (lower)
+    pk: tuple
+    text: str
+
+
+def ddl(prog: Program) -> list[Table]:
+    """Every CREATE TABLE found in a string literal (or f-string) of the program."""
+    cache = getattr(prog, "_ddl_cache", None)
+    if cache is not None:
+        return cache
+    out: list[Table] = []
+    for m in prog.modules.values():
+        for n in ast.walk(m.tree):
+            lit = None
+            if isinstance(n, ast.Constant) and isinstance(n.value, str) and "CREATE TABLE" in n.value.upper():
+                lit = n.value
+            elif isinstance(n, ast.JoinedStr):
+                l2 = _literal(n)
+                if l2 and "CREATE TABLE" in l2[0].upper():
+                    lit = l2[0]
+            if lit is None:
+                continue
+            for mm in re.finditer(r"create\s+table\s+(?:if\s+not\s+exists\s+)?([\w{}.]+)\s*\(", lit, flags=re.I):
+                start = mm.end()
+                depth, i = 1, start
+                while i < len(lit) and depth:
+                    if lit[i] == "(":
+                        depth += 1
+                    elif lit[i] == ")":
+                        depth -= 1
+                    i += 1
+                body = lit[start:i - 1]
+                cols: dict = {}
+                pk: tuple = ()
+                for part in _split_top(" ".join(body.split()), ","):
+                    low = part.lower().strip()
+                    if low.startswith("primary key"):
+                        inner = low[low.index("(") + 1: low.rindex(")")]
+                        pk = tuple(c.strip() for c in inner.split(","))
+                    elif low.startswith(("unique", "foreign key", "constraint", "check")):
+                        continue
+                    elif low:
+                        name = low.split()[0]
+                        cols[name] = low
+                        if "primary key" in low and not pk:
+                            pk = (name,)
+                out.append(Table(mm.group(1), m.name, m.relpath, getattr(n, "lineno", 0), cols, pk, body))
+    # dedupe JoinedStr/Constant double hits
+    seen = set()
+    uniq = []
+    for t in out:
+        k = (t.module, t.name, t.line, tuple(t.cols))
+        if k in seen:
+            continue
+        seen.add(k)
+        uniq.append(t)
+    prog._ddl_cache = uniq
+    return uniq
